@@ -84,6 +84,27 @@ theorem selectPairs_mem {α : Type} {r c : Nat} (V : Mat α r c) (D : Fin c → 
           exact ⟨j', h', List.mem_cons_of_mem _ hmem, rfl⟩
     · simp [getCol, getEntry, hj] at h
 
+/-- position by position, the pairs returned by `selectPairs` are (column `j` of `V`, `D j`)
+    for the kept indexes `j`, in the same order -/
+theorem selectPairs_forall2 {α : Type} {r c : Nat} (V : Mat α r c) (D : Fin c → α) :
+    ∀ (idx : List Nat) (out : List ((Fin r → α) × α)), selectPairs V D idx = .ok out →
+      List.Forall₂ (fun p j => ∃ h : j < c, p = ((fun i => V i ⟨j, h⟩), D ⟨j, h⟩)) out idx
+  | [], out, h => by
+    simp only [selectPairs, Except.ok.injEq] at h
+    subst h; exact List.Forall₂.nil
+  | j :: js, out, h => by
+    unfold selectPairs at h
+    by_cases hj : j < c
+    · simp only [getCol, getEntry, hj, dif_pos] at h
+      cases hrec : selectPairs V D js with
+      | error e => rw [hrec] at h; simp at h
+      | ok rest =>
+        rw [hrec] at h
+        simp only [Except.ok.injEq] at h
+        subst h
+        exact List.Forall₂.cons ⟨hj, rfl⟩ (selectPairs_forall2 V D js rest hrec)
+    · simp [getCol, getEntry, hj] at h
+
 /-- `selectPairs` succeeds when every index is a column number -/
 theorem selectPairs_ok {α : Type} {r c : Nat} (V : Mat α r c) (D : Fin c → α) :
     ∀ (idx : List Nat), (∀ j ∈ idx, j < c) → ∃ out, selectPairs V D idx = .ok out
